@@ -491,7 +491,7 @@ func TestC38(t *testing.T) {
 	for i, c := range corpus {
 		runCase(t, e, cs, st, c.variant, c.es, fmt.Sprintf("corpus%d", i))
 	}
-	n := e.Pick(500, 8000)
+	n := e.Pick(500, 5000)
 	for i := 0; i < n; i++ {
 		variant := []int{0, 0, 0, 1, 1, 1, 2, 2, 3, 4, 5, 6, 6}[e.Rng.Intn(13)]
 		runCase(t, e, cs, st, variant, func(w world) []ent { return genEntries(e.Rng, w) }, "gen")
